@@ -100,6 +100,11 @@ pub struct Cfg {
     pub render: bool,
     /// sort_candidates re-enters the cache (C20)
     pub reenter: bool,
+    /// runs with the same non-zero group are adjacent in a trace and are compared
+    pub group: u64,
+    /// "" | "verdict" (same verdict as the previous run of the group) |
+    /// "exact" (same solution sequence, message and provider call sequence)
+    pub same: String,
 }
 
 impl Default for Cfg {
@@ -116,6 +121,8 @@ impl Default for Cfg {
             whitebox: false,
             render: true,
             reenter: false,
+            group: 0,
+            same: String::new(),
         }
     }
 }
